@@ -37,6 +37,7 @@ def run(rep: Report, tier: str) -> None:
 	rule_e(rep, idx, nm, gm)
 	rule_f(rep, idx, nm, gm)
 	rule_g(rep, idx, nm)
+	rule_h(rep, idx, nm)
 
 
 def py_key(tok: str, kind: str) -> str:
@@ -55,6 +56,10 @@ def rule_a(rep: Report, gm: GrammarModel, rule_prefix: str = 'C02', levels=None,
 	prec = python_precedence()
 	if len(levels) < 8:
 		raise AnalysisError(f'{rule_prefix}-a: only {len(levels)} ladder levels found')
+	# every construct CPython's expression ladder has between lambda and atoms must be found: a level the reader no longer recognises would drop out of
+	# the comparison silently
+	for kind in ('ternary', 'prefix', 'binary'):
+		rs.check(any(lv.kind == kind for lv in levels), f'has-{kind}-level', where, f'no {kind} level recognised in the expression ladder (the conditional expression / unary / binary rules changed shape): its grouping is no longer compared with CPython')
 	toks = []
 	for lv in levels:
 		for t in lv.tokens:
@@ -76,7 +81,7 @@ def rule_a(rep: Report, gm: GrammarModel, rule_prefix: str = 'C02', levels=None,
 		elif lv.kind == 'prefix':
 			rs.check(lv.operand == lv.rule, f'{lv.tag}:prefix-recursive', where, f'unary level {lv.rule} does not recurse on itself: `- -a` / `not not a` would not parse as nested unary operators')
 		elif lv.kind == 'ternary':
-			rs.check(lv.tokens == ['if-else'], f'{lv.tag}:else-recursive', where, f'the ternary else branch of {lv.rule} is not the recursive expression: `a if b else c if d else e` would group to the left')
+			rs.check(lv.tokens == ['if-else'], f'{lv.tag}:else-recursive', where, f'the conditional expression of {lv.rule} is not `Y "if" Y "else" {lv.rule}` ({lv.tokens[0]}): `a if b else c if d else e` groups as `(a if b else c) if d else e` (CPython: `a if b else (c if d else e)`), or an operand is parsed on the wrong level')
 	order = [lv.depth for lv in levels]
 	rs.check(order == sorted(order), 'levels-ordered', where, f'ladder depths are not monotone: {order}')
 
@@ -544,3 +549,42 @@ def rule_g(rep: Report, idx: SourceIndex, nm: NodeModel) -> None:
 					r.violate(key, (g.module.relpath, n.lineno), f'{c.name}.{name} collects its children with a loop that stops early ({how}): every child after the one that triggers the stop is missing from the node tree although CPython keeps it (e.g. a base class listed after `Generic[T]`)', unparse(n)[:80])
 				else:
 					r.ok(key, f.where)
+
+
+# ---- (h) classification by decorator does not depend on the decorator's position ----------------------------------------------------
+
+def rule_h(rep: Report, idx: SourceIndex, nm: NodeModel) -> None:
+	"""Python applies every decorator of the list; `@override @classmethod def f(cls)` is a class method exactly like `@classmethod @override`. A
+	match_feature / classification property that reads ONE position of the decorator list (decorators[0]) classifies by position."""
+	from vlib.match import FI, nodes
+	r = rep.rule('C02/decorator-tests-any-position', 'no match_feature / classification property of a node class reads the decorator list through a constant index: a decorator is searched in the whole list', floor=3)
+	n_sites = 0
+	for c in nm.classes:
+		for name, defs in c.methods.items():
+			for f in defs:
+				src = unparse(f.node)
+				if 'decorators' not in src:
+					continue
+				fx = FI(f)
+				reads = [n for n in nodes(fx, (ast.Call, ast.Attribute)) if (isinstance(n, ast.Call) and isinstance(n.func, ast.Attribute) and n.func.attr == '_children' and n.args and isinstance(n.args[0], ast.Constant) and n.args[0].value == 'decorators') or (isinstance(n, ast.Attribute) and n.attr == 'decorators')]
+				if not reads:
+					continue
+				n_sites += 1
+				key = f'{c.name}.{name}'
+				bad = []
+				for sub in nodes(fx, ast.Subscript):
+					if isinstance(sub.slice, ast.Slice):
+						continue
+					if _const_int(sub.slice) is None:
+						continue
+					base = sub.value
+					# the subscripted value is the decorator list itself (possibly behind `... if exists else []`), not a filtered copy
+					direct = [base] if not isinstance(base, ast.IfExp) else [base.body, base.orelse]
+					if any(any(d is r_ or unparse(d) == unparse(r_) for r_ in reads) for d in direct):
+						bad.append(sub)
+				if bad:
+					r.violate(key, (f.module.relpath, bad[0].lineno), f'{c.name}.{name} reads `{unparse(bad[0])[:90]}`: one fixed position of the decorator list. Python applies decorators in any order (`@override @classmethod def make(cls)`), so the node is classified by where the decorator stands, not by whether it is present', unparse(bad[0])[:100])
+				else:
+					r.ok(key, f.where)
+	if n_sites == 0:
+		r.skip('decorator-reads', None, 'no node class reads its decorators')
